@@ -53,22 +53,36 @@ def gatedModules : List (Text × Text) :=
 
 def gateOf (m : Text) : Option Text := (gatedModules.find? (fun p => p.1 == m)).map (·.2)
 
+/-- the `crate::<module>` references of a gated module: (features required by the enclosing
+`#[cfg]` items, module referred to) -/
+def importsOf (m : Text) : List (List Text × Text) :=
+  ((Gen.Features.imports.find? (fun p => p.1 == m)).map (·.2)).getD []
+
 /-- table fact, checked by the kernel on the regenerated tables: enabling the feature of a module
-ALONE enables the feature of every gated module it imports -/
+(together with the features a `#[cfg]` around the reference requires) ALONE enables the feature of
+every gated module it refers to -/
 def singleClosed : Bool :=
   gatedModules.all (fun (m, g) =>
-    ((Gen.Features.imports.find? (fun p => p.1 == m)).map (·.2)).getD [] |>.all (fun m' =>
+    (importsOf m).all (fun (cs, m') =>
       match gateOf m' with
-      | some g' => (closure tbl [g]).contains g'
+      | some g' => (closure tbl (g :: cs)).contains g'
       | none => Gen.Features.plainModules.contains m'))
 
 theorem imports_closed_single : singleClosed = true := by decide +kernel
 
-/-- For EVERY set of requested features: every enabled catalogue module imports only modules
-that are enabled too (or always present) — no feature combination has a dangling import. -/
+/-- what a set of features pulls in is pulled in by any request that reaches all of them -/
+theorem reach_trans_list (req base : List Text) (f : Text) (hb : ∀ g ∈ base, Reach tbl req g)
+    (hf : Reach tbl base f) : Reach tbl req f := by
+  induction hf with
+  | base f h => exact hb f h
+  | step g' f _ hd ih => exact Reach.step g' f ih hd
+
+/-- For EVERY set of requested features: every enabled catalogue module refers (in code whose
+`#[cfg]` conditions are met) only to modules that are enabled too (or always present) — no feature
+combination has a dangling import. -/
 theorem imports_closed_all (req : List Text) (m g : Text) (hm : (m, g) ∈ gatedModules)
-    (hen : Reach tbl req g) (m' : Text)
-    (himp : m' ∈ ((Gen.Features.imports.find? (fun p => p.1 == m)).map (·.2)).getD []) :
+    (hen : Reach tbl req g) (cs : List Text) (m' : Text)
+    (himp : (cs, m') ∈ importsOf m) (hcs : ∀ c ∈ cs, Reach tbl req c) :
     (∃ g', gateOf m' = some g' ∧ Reach tbl req g') ∨
     (gateOf m' = none ∧ m' ∈ Gen.Features.plainModules) := by
   have h := imports_closed_single
@@ -76,18 +90,26 @@ theorem imports_closed_all (req : List Text) (m g : Text) (hm : (m, g) ∈ gated
   rw [List.all_eq_true] at h
   have h1 := h (m, g) hm
   simp only [List.all_eq_true] at h1
-  have h2 := h1 m' himp
+  have h2 := h1 (cs, m') himp
   cases hg : gateOf m' with
   | some g' =>
     left
     refine ⟨g', rfl, ?_⟩
     simp only [hg] at h2
-    have : g' ∈ closure tbl [g] := by simpa using h2
-    exact reach_trans req g g' hen (closure_sound [g] g' this)
+    have : g' ∈ closure tbl (g :: cs) := by simpa using h2
+    refine reach_trans_list req (g :: cs) g' ?_ (closure_sound (g :: cs) g' this)
+    intro x hx
+    rcases List.mem_cons.mp hx with rfl | hx
+    · exact hen
+    · exact hcs x hx
   | none =>
     right
     simp only [hg] at h2
     exact ⟨rfl, by simpa using h2⟩
+
+/-- non-vacuity: the table has unconditional references to gated modules -/
+example : (gatedModules.any (fun p => (importsOf p.1).any (fun e => e.1.isEmpty && (gateOf e.2).isSome))) = true := by
+  decide +kernel
 
 /-- exactly one definition of `AmountT` is compiled in every configuration
 (fpdec on/off x 32/64-bit target) -/
